@@ -12,6 +12,12 @@ CHECKS = {
  "C07": ("exploration", "property-based testing: generated predict/update sequences vs dense f64 textbook Kalman filter; exact cost/gate relations",
          "Generated measurement sequences (<=300 steps, seven motion modes) compared step by step with an independent dense f64 filter: mean, covariance (symmetry, SPD by f64 Cholesky, entries), distance against the filter's own state and against the reference; stationary objects; vector filter bit-equal to point filters; cost conversions exact for every generated d incl. +-3 ulp around each chi-square entry.",
          "Tolerances >= 5x measured f32 drift inside the regular envelope (height within x10, <=3 predict-only steps in a row). Outside it only finiteness/SPD/no-panic are asserted and D10 is a listed known finding.", "3/C07"),
+ "C09": ("exploration", "model-based property testing: generated store operation sequences vs sequential map model; exhaustive short sequences",
+         "Every sequence of length <=2 (quick) / <=3 (thorough) over a 39-operation alphabet x shard counts {1,2,3}, plus random sequences up to 300 operations over 1..5 shards, is applied to the real store and to a sequential model; every return value (incl. merge failures: missing destination/source, same track, failing merge callback) and the full per-shard contents are compared after every step.",
+         "The model reuses the harness-owned callbacks (attribute update/merge, optimise) - they are inputs, not code under test; track/store semantics are modelled independently. Diagnostic 'seen by last optimise' fields are masked (hash-order dependent for unordered class lists).", "3/C09"),
+ "C10": ("exploration", "property-based testing under forced worker schedules: generated stores/queries x command-granularity interleavings (hook gates) vs sequential definition",
+         "Generated store contents and candidate batches (foreign and owned), both only_baked settings, all()/iterator, 1..4 shards; a plan totally orders all Distances commands (FIFO per shard) and the caller's own step; all interleavings enumerated for scenarios with <= 6 commands, random plans and delays beyond. The multiset of results and the number of error items must equal the sequential definition and the store must be unchanged.",
+         "Schedules are forced at hook granularity (command begin/end, the caller's step inside the owned query), not at instruction level; gate waits are bounded and an unachieved plan only costs coverage (counted).", "3/C10"),
  "C11": ("fault_enumeration", "property-based testing + exhaustive fault injection: every callback position of every generated case fails once; pre/post state comparison and sequential track model",
          "For each generated (tracks, operation) case a fault-free run numbers the user-callback invocations (attribute update, attribute merge, optimise per class); then every position is replayed failing, on add_observation, Track::merge, store.add, merge_external and merge_owned. Failure => state equals the pre-state in attributes, observations of every class, metric state and merge history, zero notifications, both tracks still stored; success => exactly one notification and the state of the sequential model (merge history = previous ++ source once).",
          "Harness callbacks leave half-applied changes behind before failing, so a missing restore is visible. Metric state is observed through a follow-up optimise call. Class lists without duplicates.", "3/C11"),
@@ -66,7 +72,7 @@ def main():
             "guard": "--cfg similari_verif",
             "enable": "rustflags in /verif/harness/.cargo/config.toml: --cfg similari_verif (plus -C target-cpu=x86-64-v3 as in /repo/.cargo/config.toml); the harness depends on /repo by path, so every ./run rebuilds /repo's working tree with hooks on",
             "baseline_off_cmd": "cd /repo && cargo test --workspace --no-fail-fast --offline",
-            "source_commits": ["64cbe0e"],
+            "source_commits": ["64cbe0e", "838f926 (moves one guarded schedule point inside owned_track_distances together with the fix)"],
             "add_only": True,
         },
         "engines": [
